@@ -56,7 +56,7 @@ def run(res, tier):
         lattices = [("one", 1, [0, 1, 3, 4], [0, 1, 2, 3], [0, 1, 2], [True, False], [True, False]),
                     ("two", 2, [1, 3], [0, 2], [1], [True, False], [True, False])]
     else:
-        lattices = [("one", 1, [0, 1, 3], [0, 2], [0, 1], [True, False], [True, False]),
+        lattices = [("one", 1, [0, 1, 3], [0, 2], [0, 1, 2], [True, False], [True, False]),
                     ("two", 2, [1], [0, 1], [1], [True], [True])]
     track = os.path.join(wd, "track.txt")
     with open(track, "w") as f:
